@@ -983,6 +983,9 @@ impl Decl {
         w!(o, "pub const ONE: {bty} = {};", if self.inner.is_float() { "1.0" } else { "1" });
         w!(o, "pub mod k {{ pub const KM: {bty} = {km}; }}");
         w!(o, "pub const fn kmax() -> {bty} {{ {} }}", if self.inner.is_float() { "42.0" } else { "42" });
+        // constants of *another* type than the bound type (a bound spelled with them cannot be honoured)
+        w!(o, "pub const WIDE: i64 = 300;");
+        w!(o, "pub const WIDEF: f64 = 1e300;");
         Some(o)
     }
 }
